@@ -196,7 +196,7 @@ def oracle(ctx, scale):
     S = ctx.cov["S"]
     n = ctx.n(300, 5000) * scale
     geoms = ["generic", "generic", "generic", "partial", "collinear_decimal", "collinear_axis", "collinear_diag",
-             "collinear_int", "grid"]
+             "collinear_int", "grid", "nearlinear", "elastic"]
     fails = 0
     hist, pats = {}, {}
     nprobe = ncalls = 0
